@@ -36,6 +36,8 @@ func main() {
 	defer os.RemoveAll(root)
 	rep := common.NewReport()
 	rep.Rule = map[string]string{
+		"C06": "non-trivial = distinct (request, wallet state: coin statuses, spenders, locks, leases) pairs for which a created transaction's inputs were compared with the eligible set / a refusal was required",
+		"C20": "non-trivial = distinct (operation incl. backend answer class, wallet state) pairs after which balances, spendable set, recorded transactions (and the re-broadcast log after restarts) were compared",
 		"C15": "non-trivial = distinct (backend chain of block ids, wallet transaction placement, last operation) quiescent states of a running wallet that were compared",
 	}[*prop]
 	err = common.ForEachLine(*in, *workers, func(idx int, line []byte) {
@@ -45,6 +47,8 @@ func main() {
 		switch *spec {
 		case "chainsync":
 			replayChainSync(idx, line, *seed, root, rep)
+		case "spend":
+			replaySpend(idx, line, *prop, *seed, root, rep)
 		default:
 			rep.AddError("unknown spec %q", *spec)
 		}
